@@ -98,6 +98,12 @@ def siteClass : Check → String
   | .KC4 | .KZ2 => "CONSSERVERS"
   | c => toString (repr c) |>.splitOn "." |>.getLast!
 
+def insertSorted (x : String) : List String → List String
+  | [] => [x]
+  | y :: ys => if x < y then x :: y :: ys else y :: insertSorted x ys
+
+def sortStrings (l : List String) : List String := l.foldl (fun acc x => insertSorted x acc) []
+
 def step (args : List String) : String :=
   match args with
   | "start" :: rest =>
@@ -108,9 +114,15 @@ def step (args : List String) : String :=
       -- without a crash; one that satisfies all must be accepted.
       let o := start handlerNew c 0 none
       match configure c with
-      | some site =>
+      | some _ =>
         let st := match o.result with | .returned n => s!"ret{n}" | .crashed => "crash"
-        s!"valid=0 site={siteClass site} start={st}"
+        -- the modules of one kind are configured in Go map order: any failing module's first site may be named
+        let classes := (configureSites c).map siteClass
+        let classes := classes.foldl (fun acc x => if acc.contains x then acc else acc ++ [x]) []
+        let shown := match sortStrings classes with
+          | [x] => x
+          | xs => "(" ++ "|".intercalate xs ++ ")"
+        s!"valid=0 site={shown} start={st}"
       | none => s!"valid=1 site=- start={if loc then "ret0" else "skipped"}"
   | _ => "bad-op"
 
